@@ -382,6 +382,13 @@ def monitor(c, tr):
     if end[0] == 99 and end[1][0] == 0 and live:
         return "descriptor(s) %s leaked: every object was destroyed but they were never closed" % sorted(live)
     rets = segments(c, tr)
+    prev = -1
+    for r in rets:
+        a = tr[r][1]
+        if a[0] in (43, 1043) and a[1] == 1 and not any(k == 5 and x[-1] > 0 for k, x in tr[prev + 1:r]):
+            return ("Stop() reported success without handing a wake-up datagram to the OS (an earlier failure left the driver believing one is "
+                    "pending): a Run()/Step() blocked in poll is not woken, later failures of this call cannot even occur")
+        prev = r
     known = None
     for (f, desc, kind, which, errno) in faults_in_trace(c, tr):
         if kind == "setup" and which == 11:
